@@ -113,5 +113,11 @@ func checkSpecs() map[string]CheckSpec {
 	}, Explanation: "Signed area, ring direction and point/line/polygon centroids on integer-grid inputs against exact shoelace / mean references; equalities of rational functions by exact normalisation, sign facts by nlsat.",
 		Assumptions: []string{"summary: bigxy.OrientationIndex = sign of the exact determinant (C10)"},
 		Outside: []string{"to-within-rounding (claims are exact for SignedArea, ideal for centroids)", "polygons with holes, multi-polygons and the zero-area fallback", "rings with more vertices than the bound"}})
+	add(CheckSpec{Property: "C18", Harnesses: []HarnessSpec{
+		{Func: "HC18_WriteCoord", Pkg: "encoding/wkt", Domain: B, Covers: []string{"end"}},
+		{Func: "HC18_Marshal", Pkg: "encoding/wkt", Domain: B, Covers: []string{"end"}},
+	}, Explanation: "WKT encoder with a decimal-digit limit: strconv.FormatFloat replaced by a model returning an arbitrary digit string of the documented shape; the real trimming and builder code checked for every such string.",
+		Assumptions: []string{"model: strconv.FormatFloat(x,'f',d,64) returns [-]D+.D{d} (D+ <= 3 digits here) within half a unit in the last place of x (the rounding itself is strconv's contract, not decided)"},
+		Outside: []string{"|emitted - x| <= 0.5*10^-d (strconv's rounding)", "the GeoJSON encoder (reflect/encoding/json not encoded)", "integer parts longer than 3 digits"}})
 	return m
 }
